@@ -429,7 +429,30 @@ def r64(ctx):
                         ctx.bad(rid, x, f"module global {nm} is declared global in {q} but only mutated, never rebound")
 
 
+def r66(ctx):
+    """current.locked offset symmetry: written with + _offset from offset-removed records, read
+    back with - _offset (the unit analysis of C08 R-8.7, evaluated under C06)."""
+    from . import c08
+
+    class Proxy:
+        def __init__(self, c):
+            self._c = c
+            self.tree = c.tree
+
+        def ok(self, rid, node, what, nontrivial=True):
+            self._c.ok("R-6.6", node, what, nontrivial)
+
+        def bad(self, rid, node, message, **kw):
+            self._c.bad("R-6.6", node, message, **kw)
+
+        def note(self, m):
+            self._c.note(m)
+
+    c08.r87(Proxy(ctx))
+
+
 def run(ctx):
+    ctx.rule("R-6.6", "in-flight jobs are persisted and re-issued in one ensemble-index unit (offset symmetry of current.locked; shared with C08 R-8.7)", floor=4)
     ctx.rule("R-6.1", "restart.toml writer/reader agreement: keys, roles, key representation", floor=12)
     ctx.rule("R-6.2", "restore provenance of the scheduler stream (cross-reference to C07)", floor=1)
     ctx.rule("R-6.3", "no nondeterministic source reaches restart.toml or the data file (taint analysis)", floor=10)
@@ -439,6 +462,7 @@ def run(ctx):
     ctx.attempt(r62, ctx)
     ctx.attempt(r63, ctx)
     ctx.attempt(r64, ctx)
+    ctx.attempt(r66, ctx)
     from .shared import commit_is_final
     ctx.attempt(commit_is_final, ctx, "R-6.5")
 
@@ -458,6 +482,8 @@ VARIANTS = [
     B("c06-traj-data-shared", REPEX, "        # per-run path data: not shared with other REPEX_state instances\n        self.traj_data = {}\n", "", "R-6.4", control=True, why="pre-fix D12"),
     B("c06-ensembles-conditionally-rebound", SETUP, "    # setup ensembles\n    state.initiate_ensembles()\n", "    # setup ensembles\n    if not state.ensembles:\n        state.initiate_ensembles()\n", "R-6.4"),
     B("c06-commit-before-sort", REPEX, "        self.sort_trajstate()\n        self.config[\"current\"][\"traj_num\"] = traj_num\n", "        self.config[\"current\"][\"traj_num\"] = traj_num\n        self.write_toml()\n        self.sort_trajstate()\n", "R-6.5", control=True, why="seeded C06_a"),
+    B("c06-reissue-recorded-with-offset", REPEX, "        self.locked.append((enss, trajs0))\n", "        self.locked.append((enss0, trajs0))\n", "R-6.6", why="seeded C06_b (= C08_b)"),
+    B("c06-locked-written-without-offset", REPEX, "([int(tup0 + self._offset) for tup0 in tup[0]], tup[1])", "([int(tup0) for tup0 in tup[0]], tup[1])", "R-6.6", control=True),
     K("c06-keep-frac-key-local", REPEX, "        for key in sorted(self.traj_data.keys()):\n            fracs = [str(i) for i in self.traj_data[key][\"frac\"]]\n            self.config[\"current\"][\"frac\"][str(key)] = fracs", "        for key in sorted(self.traj_data.keys()):\n            fracs = [str(i) for i in self.traj_data[key][\"frac\"]]\n            current = self.config[\"current\"]\n            current[\"frac\"][str(key)] = fracs"),
     K("c06-keep-step-count-in-log", REPEX, '        self.cworker = md_items["pin"]\n', '        self.cworker = md_items["pin"]\n        logger.debug("step took %s", md_items["md_end"] - md_items["md_start"])\n'),
     K("c06-keep-traj-data-dict-call", REPEX, "        self.traj_data = {}\n", "        self.traj_data = dict()\n"),
